@@ -16,6 +16,7 @@ TreeFails(t, i) ==
   \cup If(ev.c \in Range(t.roots), "C02.root_not_allowed")
   \cup If(~(t.N > 1 /\ tr.tree.k = "U"), "C02.unary_at_root")
   \cup If(ev.adm, "C16.leaf_tag_excluded_by_beam")
+  \cup If(ev.adm, "C02.leaf_supertag_not_admitted")      \* C02 states it too: each leaf carries a supertag admitted for its token
   \cup If(ev.lic, "C12.label_not_of_creating_result")
   \cup If((ev.ok /\ ev.n = t.N) => tr.score = ev.sc + t.dep[ev.h][1], "C09.score_not_model_score")
 
